@@ -48,6 +48,60 @@ def module_consts(tree):
     return out
 
 
+PURE_CALLS = {"len", "str", "int", "repr", "min", "max", "abs", "round", "hex", "bool", "sorted", "list", "tuple"}
+
+
+def _pure_expr(e):
+    """an expression without effects: names, attributes, constants, operators, f-strings, subscripts and calls of a few
+    builtins (it can only raise on ill-typed values, which the modelled alphabets do not contain)"""
+    for n in ast.walk(e):
+        if isinstance(n, ast.Call):
+            if not (isinstance(n.func, ast.Name) and n.func.id in PURE_CALLS):
+                return False
+        elif isinstance(n, (ast.Await, ast.Yield, ast.YieldFrom, ast.NamedExpr, ast.Lambda)):
+            return False
+    return True
+
+
+def drop_log_only_locals(tree):
+    """remove `name = <pure expression>` statements whose name is read only inside `logger.*(...)` statements of the same
+    function: they cannot influence anything the model speaks about, and the extractor would otherwise have to call
+    them unknown.  Returns the list of removed statements (kept in the generated file's header)."""
+    removed = []
+    for fn in [n for n in ast.walk(tree) if isinstance(n, (ast.FunctionDef, ast.AsyncFunctionDef))]:
+        cands = {}
+        for st in ast.walk(fn):
+            if isinstance(st, ast.Assign) and len(st.targets) == 1 and isinstance(st.targets[0], ast.Name) and _pure_expr(st.value):
+                cands.setdefault(st.targets[0].id, []).append(st)
+        if not cands:
+            continue
+        used_outside = set()
+        def visit(node, in_logger):
+            for ch in ast.iter_child_nodes(node):
+                il = in_logger or is_logger(ch)
+                if isinstance(ch, ast.Name) and isinstance(ch.ctx, ast.Load) and not il:
+                    used_outside.add(ch.id)
+                visit(ch, il)
+        visit(fn, False)
+        stores = {}
+        for n in ast.walk(fn):
+            if isinstance(n, ast.Name) and isinstance(n.ctx, (ast.Store, ast.Del)):
+                stores[n.id] = stores.get(n.id, 0) + 1
+        params = {a.arg for a in fn.args.args + fn.args.kwonlyargs}
+        drop = [st for name, sts in cands.items() if name not in used_outside and name not in params
+                and stores.get(name, 0) == len(sts) for st in sts]
+        if not drop:
+            continue
+        for node in ast.walk(fn):
+            for field in ("body", "orelse", "finalbody"):
+                b = getattr(node, field, None)
+                if isinstance(b, list) and any(x in drop for x in b):
+                    kept = [x for x in b if x not in drop]
+                    setattr(node, field, kept or [ast.Pass()])
+        removed += [src(st) for st in drop]
+    return removed
+
+
 def is_logger(stmt):
     return isinstance(stmt, ast.Expr) and isinstance(stmt.value, ast.Call) and src(stmt.value.func).startswith("logger.")
 
@@ -61,6 +115,7 @@ class ServerExtractor:
     def __init__(self, repo):
         p = os.path.join(repo, "frontend/server/services/service.py")
         self.tree = ast.parse(open(p).read())
+        self.dropped = drop_log_only_locals(self.tree)
         self.states = class_consts(self.tree, "SERVICE_STATE")
         c = ast.parse(open(os.path.join(repo, "frontend/common/constants.py")).read())
         self.msg = class_consts(c, "MsgType")
@@ -438,6 +493,7 @@ class ClientExtractor:
     def __init__(self, repo):
         p = os.path.join(repo, "frontend/client/services/service.py")
         self.tree = ast.parse(open(p).read())
+        self.dropped = drop_log_only_locals(self.tree)
         self.consts = module_consts(self.tree)
         self.states = class_consts(self.tree, "SERVICE_STATE")
         c = ast.parse(open(os.path.join(repo, "frontend/common/constants.py")).read())
